@@ -45,6 +45,11 @@ def const(t):
         return t["v"]
     if isinstance(t, dict) and t.get("k") == "null":
         return 0
+    if isinstance(t, dict) and t.get("k") == "call" and t.get("f") in ("std::numeric_limits::max", "std::numeric_limits::min") and t.get("iw") and not t.get("a"):
+        iw = t["iw"]
+        if t["f"].endswith("max"):
+            return (1 << (abs(iw) - 1)) - 1 if iw < 0 else (1 << iw) - 1
+        return -(1 << (abs(iw) - 1)) if iw < 0 else 0
     return None
 
 
